@@ -270,6 +270,23 @@ def must_facts(g, modset=None):
                 out.discard(f)
         return frozenset(out) if out is not None else s
 
+    def kill_nonptr(s):
+        out = None
+        for f in s:
+            dead = False
+            for n in walk(f.x):
+                if n.k == 'mem':
+                    from .ir import is_pointer as _isp
+                    if not _isp(n.cty) and not (n.cty or '').startswith('struct') and '[' not in (n.cty or ''):
+                        # the fact reads an integer field: may be overwritten
+                        par = None
+                        dead = True
+            if dead:
+                if out is None:
+                    out = set(s)
+                out.discard(f)
+        return frozenset(out) if out is not None else s
+
     def tr(node, s):
         if node.x is None or not s:
             return s
@@ -277,16 +294,9 @@ def must_facts(g, modset=None):
         for c in walk(node.x):
             if c.k == 'call':
                 for p in addr_taken_args(c):
-                    if p[0][0] == 'v':
+                    # &v passed: v may be written by the callee (&v->f is handled below as a field write)
+                    if len(p) == 1 and p[0][0] == 'v':
                         s = kill(s, var=p[0][1])
-                    for e in p:
-                        if e[0] in ('.', '->'):
-                            pass
-                    # &x->f passed: treat field f as written
-                    last = [e for e in p if e[0] in ('.', '->')]
-                    if last:
-                        # find the field identity
-                        pass
                 if modset is not None:
                     flds, unknown = modset(c)
                     if unknown:
@@ -327,10 +337,14 @@ def must_facts(g, modset=None):
                 if t is not None and t.k == 'mem':
                     s = kill(s, field=t.field)
                 elif t is not None and t.k == 'un' and t.op == '*':
-                    # *p = v : may alias any field of matching type; be conservative
-                    s = kill(s, allfields=True)
-                    if p[0][0] == 'v':
-                        pass
+                    # *p = v : may alias a field of matching kind.  A store of an integer through a
+                    # data pointer (transfer buffers, out-parameters) is assumed not to overlap the
+                    # pointer-valued fields of the stack's own control structures.
+                    from .ir import is_pointer as _isp
+                    if _isp(t.cty):
+                        s = kill(s, allfields=True)
+                    else:
+                        s = kill_nonptr(s)
                 elif t is not None and t.k == 'ref':
                     s = kill(s, var=t.ref)
         return s
